@@ -592,7 +592,7 @@ func runC13(c *h.Ctx) {
 	}
 	// random pairs near the boundaries
 	r := c.Rand("c13")
-	n := c.PerShard(c.N(150000, 3000000))
+	n := c.PerShard(c.N(2000000, 20000000))
 	bases := []int64{0, math.MaxInt32, math.MinInt32, math.MaxInt64, math.MinInt64, 1 << 53, -(1 << 53), 1 << 62, -(1 << 62), 3037000499, 1 << 31, 1 << 32}
 	rnd := func() string {
 		switch r.IntN(6) {
